@@ -57,9 +57,14 @@ type POuter struct {
 	Z string
 }
 
+// an embedded struct of an unexported type: its exported fields are promoted (W.Secret is fine, as in Go), the embedded
+// field itself is unexported (W.hidden, W.hidden.Secret are not)
+type hidden struct{ Secret string }
+
 type WithUnexported struct {
 	Pub  string
 	priv string
+	hidden
 }
 
 type Meth struct{ V string }
@@ -235,7 +240,7 @@ func (g *Gen) Root() *Root {
 	r.L = L0{L1: L1{L2: L2{L3: L3{g.Tok(), g.Tok(), g.Tok()}, Mid: g.Tok()}, Top: g.Tok()}, Root0: g.Tok()}
 	r.P = POuter{PInner: &PInner{X: g.Tok(), Y: 7}, Z: g.Tok()}
 	r.PNil = POuter{Z: g.Tok()}
-	r.W = WithUnexported{Pub: g.Tok(), priv: g.Tok()}
+	r.W = WithUnexported{Pub: g.Tok(), priv: g.Tok(), hidden: hidden{Secret: g.Tok()}}
 	r.M = Meth{g.Tok()}
 	r.PM = &Meth{g.Tok()}
 	r.MapSS = map[string]string{"k1": g.Tok(), "k2": g.Tok(), "empty": ""}
@@ -295,6 +300,7 @@ type Step struct {
 	Index        interface{} // int (literal), string (literal), VarRef
 	Lo, Hi       int
 	HasLo, HasHi bool
+	LoRef, HiRef string // spell the bound as this variable (same value as Lo / Hi)
 	Args         []interface{}
 }
 
@@ -333,9 +339,15 @@ func (p Path) Src(base string) string {
 			lo, hi := "", ""
 			if s.HasLo {
 				lo = fmt.Sprint(s.Lo)
+				if s.LoRef != "" {
+					lo = s.LoRef
+				}
 			}
 			if s.HasHi {
 				hi = fmt.Sprint(s.Hi)
+				if s.HiRef != "" {
+					hi = s.HiRef
+				}
 			}
 			b.WriteString("[" + lo + ":" + hi + "]")
 		case SCall:
@@ -401,6 +413,21 @@ var Vars = map[VarRef]interface{}{"ix0": 0, "ix1": 1, "ix2": 2, "ix3": 3, "ixm1"
 	// comparable by static type, unhashable by dynamic value
 	"kdyn":  struct{ ID interface{} }{[]int{7}},
 	"kpair": [2]interface{}{"a", map[string]int{"z": 1}}}
+
+// BoundKinds are the integer kinds slice bounds are also written with (variables b<kind><n>, n = 0..6).
+var BoundKinds = []string{"u8", "i8", "u16", "i64", "u", "u32", "i"}
+
+func init() {
+	for n := 0; n <= 6; n++ {
+		Vars[VarRef(fmt.Sprintf("bu8%d", n))] = uint8(n)
+		Vars[VarRef(fmt.Sprintf("bi8%d", n))] = int8(n)
+		Vars[VarRef(fmt.Sprintf("bu16%d", n))] = uint16(n)
+		Vars[VarRef(fmt.Sprintf("bi64%d", n))] = int64(n)
+		Vars[VarRef(fmt.Sprintf("bu%d", n))] = uint(n)
+		Vars[VarRef(fmt.Sprintf("bu32%d", n))] = uint32(n)
+		Vars[VarRef(fmt.Sprintf("bi%d", n))] = n
+	}
+}
 
 func indexValue(x interface{}) reflect.Value {
 	if c, ok := x.(Computed); ok {
